@@ -4,7 +4,7 @@
 (* as a begin/end pair with a timer.                                       *)
 (*                                                                         *)
 (*  RegexBegin(fn, timeoutMs, plen, slen)  enabled only if the call into   *)
-(*      the regex engine carries a timeout with 0 < timeout <= 50 ms       *)
+(*      the regex engine (if any) carries a timeout, 0 < timeout <= 50 ms  *)
 (*  RegexEnd(elapsedMs, outcome)           enabled only if the measured    *)
 (*      duration lies inside Envelope(plen, slen) = C + (plen + slen) / K  *)
 (*      and the outcome is a value, a TimeoutError, a regex error or any   *)
@@ -33,10 +33,10 @@ vars == <<i, phase, verdict>>
 Init == i \in 1..Len(Calls) /\ phase = "idle" /\ verdict = "run"
 C == Calls[i]
 \* every entry into the regex engine made by this builtin call carries a small positive timeout
-TimeoutOk == /\ Len(C.engine) >= 1
-             /\ \A j \in 1..Len(C.engine) : C.engine[j].timeoutMs > 0 /\ C.engine[j].timeoutMs <= MaxTimeoutMs
+\* (a call answered without entering the engine at all - a literal fast path, an argument check - is constrained by RegexEnd only)
+TimeoutOk == \A j \in 1..Len(C.engine) : C.engine[j].timeoutMs > 0 /\ C.engine[j].timeoutMs <= MaxTimeoutMs
 RegexBegin == /\ phase = "idle" /\ verdict = "run"
-              /\ IF C.fn \in RegexFns /\ (TimeoutOk \/ (C.outcome = "Exception" /\ Len(C.engine) = 0))
+              /\ IF C.fn \in RegexFns /\ TimeoutOk
                  THEN phase' = "running" /\ UNCHANGED verdict
                  ELSE verdict' = "RegexBegin disabled: a call into the regex engine without a timeout in (0, 50 ms]" /\ UNCHANGED phase
               /\ UNCHANGED i
